@@ -163,12 +163,11 @@ def deep_family():
             "right-brackets": ("assign", ("name", "x"), nest(n, lambda e: ("bin", "*", one, ("par", e)), x)),
         }
         for name, s in progs.items():
-            prog = (("proc", "main", (), (), (s,)),)
+            prog = [("proc", "main", [], [], [s])]
             out.append((name, n, prog))
-        out.append(("array-types", n, (("type", "t", nest(n, lambda b: ("array", "2", b), ("named", "int"))), ("proc", "main", (), (), ()))))
+        out.append(("array-types", n, [("type", "t", nest(n, lambda b: ("array", "2", b), ("named", "int"))), ("proc", "main", [], [], [])]))
     cases = []
     for k, (name, n, prog) in enumerate(out):
-        prog = totuple(prog)
         slots = gg.empty_slots(len(splgen.flatten(prog)) + 1)
         c = make_case(prog, slots, "dense" if k % 2 else "sparse", "\n", 5000 + k)
         c["pid"] = "deep/%s/%d" % (name, n)
